@@ -22,6 +22,7 @@ type Spec struct {
 	Level            string   `json:"level"`            // evidence level
 	Rule             string   `json:"rule"`             // how cases are generated and what makes one non-trivial / distinct
 	CrashIsViolation bool     `json:"crash_is_violation"`
+	RunawayKind string // violation kind for a task that never ends during the teardown ("" = not this property's business)
 	NeedsBubble      bool     `json:"needs_bubble"`
 	Real             []string `json:"real"`
 	Stub             []string `json:"stub"`
@@ -73,11 +74,11 @@ func init() {
 		Real: []string{"pkg/search (AlphaBeta, Quiescence, table, WriteLimited)", "pkg/board"}, Stub: []string{"recording wrapper around the real table; harness-supplied position-determined evaluator and exploration"},
 		Assumptions: []string{"differential baseline: the repo's own AlphaBeta with NoTranspositionTable", "sessions are excluded from the first search in which a repetition/fifty-move draw could arise inside the tree (sufficient condition: all game positions distinct, depth <= 5, clock+depth < 100)", "exact stores are sampled (every 1st..3rd) in the quick tier"},
 		Run:         sb.SearchSessionC11})
-	register(&Spec{Prop: "C12", QuickRuns: 600, Level: "fault_enumeration",
-		Rule: "one run = one search (AlphaBeta full/selective/quiescence, Minimax, or AlphaBeta with SARGON's check-extension leaf) on a live board with history, with a fresh or pre-filled real table of tape-drawn size; its cancellation polls are counted (P) and the search is rerun with the context cancelled at exactly the n-th poll for every n<=P (P<=250), else the first 80, last 80 and 90 tape-drawn polls. evaluations = halted searches; each is judged on: ErrHalted and no result, every board getter unchanged, every store after the halt verified against the no-table value of the forked position, and two follow-up searches on the same table compared with a twin table on which the halted search never ran. Non-trivial = at least 10 polls enumerated; distinct = hash of the decoded trace",
-		Real: []string{"pkg/search (AlphaBeta, Quiescence, Minimax, table)", "cmd/sargon/sargon (OnePlyIfChecked)", "pkg/board", "seekerror/stdlib contextx.IsCancelled"}, Stub: []string{"context.Context replaced by a counting context whose Done() closes at the n-th call (the cancellation seam); harness-supplied evaluator/exploration; recording wrapper around the real table"},
-		Assumptions: []string{"cancellation is observed only through ctx.Done() polls (true for contextx.IsCancelled)", "follow-up comparison only where no repetition/fifty-move draw can arise in the tree and the root is not already drawn", "the S-A part (Handle.Halt, stop, timers reaching the search through a helper goroutine) is exercised by C15/C16/C04"},
-		Run:         sb.SearchSessionC12})
+	register(&Spec{Prop: "C12", QuickRuns: 1200, Level: "fault_enumeration", NeedsBubble: true, RunawayKind: "search-does-not-end",
+		Rule: "every other run is an analysis-level session (Iterative.Launch inside a synctest bubble, as in C15, but always with halters: Handle.Halt by one or two simulated clients, the launch context cancelled, the hard-limit timer, at tape-chosen instants while the search is parked mid-tree; judged: whatever is reported after the halt was requested is a completed iteration's true result, the board is as handed over once Halt has returned and once the analysis has ended, and it ends). The other runs: one run = one search (AlphaBeta full/selective/quiescence, Minimax, or AlphaBeta with SARGON's check-extension leaf) on a live board with history, with a fresh or pre-filled real table of tape-drawn size; its cancellation polls are counted (P) and the search is rerun with the context cancelled at exactly the n-th poll for every n<=P (P<=250), else the first 80, last 80 and 90 tape-drawn polls. evaluations = halted searches; each is judged on: ErrHalted and no result, every board getter unchanged, every store after the halt verified against the no-table value of the forked position, and two follow-up searches on the same table compared with a twin table on which the halted search never ran. Non-trivial = at least 10 polls enumerated; distinct = hash of the decoded trace",
+		Real: []string{"pkg/search (AlphaBeta, Quiescence, Minimax, table)", "pkg/search/searchctl (Iterative, handle, EnforceTimeControl) in the analysis-level sessions", "cmd/sargon/sargon (OnePlyIfChecked)", "pkg/board", "seekerror/stdlib contextx.IsCancelled"}, Stub: []string{"context.Context replaced by a counting context whose Done() closes at the n-th call (the cancellation seam); harness-supplied evaluator/exploration; recording wrapper around the real table"},
+		Assumptions: []string{"cancellation is observed only through ctx.Done() polls (true for contextx.IsCancelled)", "follow-up comparison only where no repetition/fifty-move draw can arise in the tree and the root is not already drawn", "stop and the UCI timers reaching the search through the driver are exercised by C16/C04"},
+		Run:         c12Run})
 	saReal = []string{"pkg/engine/uci (Driver)", "pkg/engine (Engine)", "pkg/search/searchctl (Iterative, TimeControl)", "pkg/search, pkg/eval, pkg/board", "cmd/{turochamp,sargon,bernstein} evaluators, move filters and books", "seekerror/stdlib iox/contextx", "time (testing/synctest fake clock)"}
 	saStub = []string{"the four main() functions (their ~10-line engine wiring is repeated in verif/sim/sa/engines.go; morlock's 64 MB default table replaced by 1 MB)", "stdin/stdout line pumps replaced by simulator channels", "every leaf evaluator wrapped in the gate (inner evaluator is the real one)", "Book wrapped to sort its answer (map iteration order)", "glog output discarded"}
 	register(&Spec{Prop: "C04", RaceTier: true, QuickRuns: 2000, Level: "exploration", NeedsBubble: true, CrashIsViolation: true,
